@@ -106,7 +106,7 @@ func genC11(r *Rng, e *Emitter, n int) {
 	// one unit inside / outside, in every layout
 	for i := 0; i < n/400+8; i++ {
 		size := []int{130, 257, 511, 512, 513, 600, 1024, 1025, 2048, 2100}[r.Intn(10)]
-		stride := 2 + r.Intn(3)
+		stride := 2 + r.Intn(5)
 		per := size / 4
 		W, H := 3*per, 2*per
 		var xs, ys []int
@@ -188,7 +188,7 @@ func genC11(r *Rng, e *Emitter, n int) {
 			vs = [][2]int64{b, a, c}
 		}
 		st := r.Intn(3)
-		stride := 2 + r.Intn(3)
+		stride := 2 + r.Intn(5)
 		ring := make([]float64, 0, 4*stride)
 		for k := 0; k <= 3; k++ {
 			v := vs[(k+st)%3]
@@ -206,7 +206,7 @@ func genC11(r *Rng, e *Emitter, n int) {
 	}
 	grids := []int{4, 6, 8, 16, 1 << 26}
 	for i := 0; i < n; i++ {
-		stride := 2 + r.Intn(3)
+		stride := 2 + r.Intn(5)
 		g := grids[r.Intn(len(grids))]
 		nv := 3 + r.Intn(9)
 		xs, ys := make([]int, nv), make([]int, nv)
